@@ -162,6 +162,16 @@ def run_launch(params, order):
                             cut = line8.index(b'\xc3') + 1            # the chunk boundary falls inside the two-byte character
                             pp.outReceived(line8[:cut])
                             pp.outReceived(line8[cut:] + MARKER_LINE)
+                        elif st == 'bytes':
+                            for i in range(len(MARKER_LINE)):
+                                pp.outReceived(MARKER_LINE[i:i + 1])          # pipe reads of one byte each
+                        elif st[0] == 'split3':
+                            # the marker spread over three chunks (a short middle one)
+                            c1 = MARKER_LINE.index(b'Opening') + st[1]
+                            c2 = MARKER_LINE.index(b'Opening') + st[2]
+                            pp.outReceived(MARKER_LINE[:c1])
+                            pp.outReceived(MARKER_LINE[c1:c2])
+                            pp.outReceived(MARKER_LINE[c2:])
                         else:
                             k = st[1]
                             cut = MARKER_LINE.index(b'Opening') + k
@@ -330,6 +340,11 @@ def param_sets(tier):
     ks = range(1, marker_len)
     for k in ks:
         out.append(dict(base, ostyle=('split', k)))
+    out.append(dict(base, ostyle='bytes'))
+    for k1 in (range(1, marker_len - 1, 4) if tier == 'quick' else range(1, marker_len - 1)):
+        for gap in ((1,) if tier == 'quick' else (1, 2, 3)):
+            if k1 + gap < marker_len:
+                out.append(dict(base, ostyle=('split3', k1, k1 + gap)))
     if tier == 'thorough':
         out.append(dict(base, own='reject', datadir='user', exit='signal', kill_on_stderr=True))
         out.append(dict(base, datadir='user'))
